@@ -47,6 +47,9 @@ type Net struct {
 	meta map[*pb.Message]msgMeta
 
 	MaxPool int
+	// Recent holds the last few delivered flights (for back-to-back
+	// duplicates).
+	Recent []*Flight
 }
 
 type msgMeta struct {
